@@ -305,6 +305,17 @@ struct Ex {
         o["line"] = lineOf(SM, BO->getBeginLoc());
         return true;
       }
+      // assignments (plain and compound) to other local arithmetic variables: kept with their operator for twin comparisons
+      if (BO->isAssignmentOp()) if (auto *DR = dyn_cast<DeclRefExpr>(strip(BO->getLHS()))) if (auto *VD = dyn_cast<VarDecl>(DR->getDecl()))
+        if (VD->isLocalVarDeclOrParm() && VD->getType()->isArithmeticType()) {
+          o["k"] = "ldef";
+          o["var"] = VD->getNameAsString();
+          o["rhs"] = exprText(Ctx, BO->getRHS());
+          o["op"] = BO->getOpcodeStr().str();
+          o["vtype"] = VD->getType().getUnqualifiedType().getAsString();
+          o["line"] = lineOf(SM, BO->getBeginLoc());
+          return true;
+        }
       if (BO->isAssignmentOp()) {
         std::string member, base;
         if (fieldOf(BO->getLHS(), member, base)) {
